@@ -343,7 +343,7 @@ func (vc *VC) evalDesignator(sc *Scope, d Expr) (out []modLoc, ok bool) {
 					}
 					return
 				}
-				hn, hs := env.cellHeap(tt)
+				hn, hs := env.elemHeap(tt)
 				heaps = append(heaps, modLoc{heap: hn, sort: hs, member: member})
 			}
 			collect(u.Elem())
@@ -423,6 +423,11 @@ func (vc *VC) scanInstr(f *Frame, in ssa.Instruction, heaps map[string]Sort, add
 			return
 		}
 		if a, ok := t.Underlying().(*types.Array); ok {
+			if !isStruct(a.Elem()) && !isArray(a.Elem()) {
+				hn, hs := env.elemHeap(a.Elem())
+				heaps[hn] = hs
+				return
+			}
 			addType(a.Elem())
 			return
 		}
@@ -482,6 +487,11 @@ func (vc *VC) scanInstr(f *Frame, in ssa.Instruction, heaps map[string]Sort, add
 				return false
 			}
 		}
+		if _, isElem := x.Addr.(*ssa.IndexAddr); isElem {
+			// store into a slice / array element
+			addType(types.NewArray(x.Addr.Type().Underlying().(*types.Pointer).Elem(), 0))
+			return false
+		}
 		addType(x.Addr.Type().Underlying().(*types.Pointer).Elem())
 	case *ssa.MapUpdate:
 		dn, vn, ds, vs := env.mapHeaps(x.Map.Type())
@@ -490,10 +500,10 @@ func (vc *VC) scanInstr(f *Frame, in ssa.Instruction, heaps map[string]Sort, add
 		dn, vn, ds, vs := env.mapHeaps(x.Type())
 		heaps[dn], heaps[vn] = ds, vs
 	case *ssa.MakeSlice:
-		addType(x.Type().Underlying().(*types.Slice).Elem())
+		addType(types.NewArray(x.Type().Underlying().(*types.Slice).Elem(), 0))
 	case *ssa.Convert:
 		if isByteSlice(x.Type()) {
-			addType(types.Typ[types.Uint8])
+			addType(types.NewArray(types.Typ[types.Uint8], 0))
 		}
 	case *ssa.Next:
 		if it := vc.iters[x.Iter]; it != nil {
@@ -594,14 +604,14 @@ func (vc *VC) callMods(f *Frame, c *ssa.CallCommon, depth int) (map[string]Sort,
 						}
 						return
 					}
-					hn, hs := env.cellHeap(t)
+					hn, hs := env.elemHeap(t)
 					heaps[hn] = hs
 				}
 				addType(s.Elem())
 			}
 		case "copy":
 			if s, ok := c.Args[0].Type().Underlying().(*types.Slice); ok {
-				hn, hs := env.cellHeap(s.Elem())
+				hn, hs := env.elemHeap(s.Elem())
 				heaps[hn] = hs
 			}
 		case "delete":
